@@ -106,7 +106,8 @@ theorem uhandler_prop (y : UReq) : y.handler.2 = true := by
   | unread => rfl
 
 /-- **C12 end to end: the `i`-th write answer of the LAST request's own output fails** (answer `n + i` of the script,
-`n` = the number of write answers the first `k` requests consumed). -/
+`n` = the number of write answers the first `k` requests consumed).  As the module doc says: the fault is inserted into the script at the
+hand-over (the first `k` requests run on the benign script); the fault present from the start is `…_whole` in `Props/C12Chain3.lean`. -/
 theorem write_error_in_last_request_e2e {b mc : Nat} (x : UReq) (xs : List UReq) (y : UReq) {t : Transport} {fuel : Nat}
     (i : Nat) (bad : WrAns) (post : List WrAns) (hbad : bad = .err ∨ bad = .zero)
     (hok : ∀ z ∈ x :: xs, z.OKu b) (hoky : y.OKu b) (hleft : ((x :: xs).getLast (by simp)).left = [])
